@@ -32,7 +32,16 @@ func checkC03(c *an.Ctx) {
 	wgPairing(c, s, "C03.2")
 	loopExits(c, s, "C03.3")
 	progressPremises(c, s, "C03.4")
-	boundedWaits(c, "C03.5", []*ssa.Function{s.schedule}, "Scheduler.Schedule", nil, s.outer)
+	boundedWaitsOpt(c, "C03.5", []*ssa.Function{s.schedule}, "Scheduler.Schedule", waitOpts{polls: true, allowedPoll: []*an.Loop{s.outer}, accepted: func(in ssa.Instruction) string {
+		if lt := s.chanLatchOf(); lt != nil && lt.doneOK {
+			for _, r := range lt.recvs {
+				if r == in {
+					return "a receive of the " + lt.kind + " latch's drain loop: every registered goroutine signals exactly once"
+				}
+			}
+		}
+		return ""
+	}})
 }
 
 // wgPairing checks C03.2.
@@ -46,6 +55,25 @@ func wgPairing(c *an.Ctx, s *sched, rule string) {
 		}
 	}
 	if add == nil {
+		// a hand-made latch in the WaitGroup's place (latch.go): registration before the launch, one signal
+		// per goroutine on every path, a drain loop after the scheduling loop that dominates every return
+		if lt := s.chanLatchOf(); lt != nil {
+			if !lt.doneOK {
+				c.Bad(rule, an.Short(f)+":latch", s.launch.Pos(), "the stages are tracked by a %s latch instead of a WaitGroup, but %s", lt.kind, lt.why)
+				return
+			}
+			c.Anchor("stage latch", lt.kind)
+			c.OK(rule, an.Short(f)+":Add", lt.reg.Pos(), "each launch is registered with the %s latch before the go statement", lt.kind)
+			c.OK(rule, an.Short(s.body)+":Done", s.body.Pos(), "the stage goroutine signals its completion exactly once, deferred first thing")
+			for _, r := range an.Returns(lt.drainFn) {
+				dom := lt.waitExit.Dominates(r.Block())
+				if !dom && !an.CanReach(lt.reg.Block(), r.Block()) && lt.drainFn == f {
+					dom = true
+				}
+				c.Check(dom, rule, an.Short(lt.drainFn)+":return-after-Wait", r.Pos(), "return comes after every completion signal was received", "Schedule can return without waiting for launched stages")
+			}
+			return
+		}
 		c.Bad(rule, an.Short(f)+":Add", s.launch.Pos(), "no WaitGroup.Add inside the per-stage loop dominates the launch: Schedule cannot wait for the stage")
 		return
 	}
